@@ -120,6 +120,10 @@ def _sim_case(rng, tier, malformed):
         arr = {"form": "nested", "rows": rows}
     c = dict(kind="sim", rt=rt, cplx=cplx, arr=arr, ins=ins, outs=outs,
              queries=_queries(rng, ins, outs, rng.randint(2, 6)), maps=_maps(rng), rot=rng.randint(0, 9))
+    # API forms: the data as numpy array / with Python ints, mappings called with the default / a positional argument
+    c["np_arr"] = (not malformed) and rng.random() < 0.35
+    c["ints"] = rng.random() < 0.3
+    c["form"] = rng.choice([0, 0, 1])
     if malformed:
         w = rng.choice(["rt", "flat", "scalar", "ragged", "ins", "outs", "empty", "both"])
         c["bad"] = w
@@ -170,7 +174,7 @@ def _samp_case(rng, tier, malformed):
             qs.append(["t", [_pyobj(rng, keys) for _ in range(rng.choice([0, 1, 2]))]])
         else:
             qs.append(["o", ["s", _state(rng, modes)]])
-    return dict(kind="samp", pairs=pairs, input=inp, queries=qs, maps=_maps(rng))
+    return dict(kind="samp", pairs=pairs, input=inp, queries=qs, maps=_maps(rng), form=rng.choice([0, 0, 1]))
 
 
 # ------------------------------------------------------------------- helpers
@@ -188,10 +192,20 @@ def _mk_item(q):
     return tuple(_mk_obj(x) for x in q[1])
 
 
-def _num(v, cplx):
+def _num(v, cplx, ints=False):
     if cplx:
         return complex(v[0][0] / v[0][1], v[1][0] / v[1][1])
+    if ints and v[1] == 1:
+        return int(v[0])
     return v[0] / v[1]
+
+
+def _apply(obj, par, inv, form):
+    """the mapping call in the form the case asks for: keyword, or default argument / positional argument"""
+    f = obj.apply_parity_mapping if par else obj.apply_threshold_mapping
+    if form == 1:
+        return f(True) if inv else f()
+    return f(invert=inv)
 
 
 def _out(x, cplx):
@@ -250,7 +264,10 @@ class C17:
             "(valid and malformed), chains of 0-4 threshold/parity mappings (plain/inverted, 40% repeats), 15% malformed "
             "constructions (bad type string, 0-D/1-D/ragged/transposed arrays, wrong list lengths); SamplingResult with "
             "0-6 counts, queries, mapping chains, non-State inputs. Non-trivial: construction succeeds with >=1 input and "
-            ">=2 outputs (sim) or >=2 counts (samp); distinct = distinct canonical JSON")
+            ">=2 outputs (sim) or >=2 counts (samp); distinct = distinct canonical JSON. API forms: data as nested list / numpy "
+            "array / Python ints, mappings called with the keyword, the default or a positional argument. History (oracle only): "
+            "every mapping of the case is also applied to the ORIGINAL object, in order and in reverse order, and compared with "
+            "the image of the original data; the constructor arguments must be left unchanged")
     TRUSTED = ["numpy's np.array shape inference (nested list -> 2-D, [] -> 1-D, ragged -> ValueError) is modelled, not verified",
                "the python set iteration order in _recombine_mapped_result is an arbitrary-permutation parameter of the model; "
                "mapped results are compared as dictionaries keyed by state (columns sorted on both sides)"]
@@ -281,7 +298,10 @@ class C17:
         a, cplx = c["arr"], c["cplx"]
         f = a["form"]
         if f == "nested":
-            return [[_num(v, cplx) for v in row] for row in a["rows"]]
+            rows = [[_num(v, cplx, c.get("ints", False)) for v in row] for row in a["rows"]]
+            if c.get("np_arr") and rows and len({len(r) for r in rows}) == 1:
+                return np.array(rows)
+            return rows
         if f == "flat":
             return [_num(v, cplx) for v in a["l"]]
         if f == "scalar":
@@ -317,10 +337,13 @@ class C17:
             cplx = c["cplx"]
             ins = [State(list(s)) for s in c["ins"]]
             outs = [State(list(s)) for s in c["outs"]]
-            made = guarded(lambda: SimulationResult(self._py_arr(c), c["rt"], ins, outs))
+            arg = self._py_arr(c)
+            arg0 = copy.deepcopy(arg)
+            made = guarded(lambda: SimulationResult(arg, c["rt"], ins, outs))
             if "err" in made:
                 return [made, [], []]
             r = made["ok"]
+            form = c.get("form", 0)
             qres = []
             for q in c["queries"]:
                 def run(q=q):
@@ -332,26 +355,39 @@ class C17:
             chain = []
             cur = r
             for par, inv in c["maps"]:
-                step = guarded(lambda: cur.apply_parity_mapping(invert=inv) if par else cur.apply_threshold_mapping(invert=inv))
+                step = guarded(lambda: _apply(cur, par, inv, form))
                 if "ok" in step:
                     cur = step["ok"]
                     chain.append({"ok": self._dump_sim(cur, cplx, True)})
                 else:
                     chain.append(step)
-            return [{"ok": self._dump_sim(r, cplx, False)}, qres, chain]
+            # history on ONE object: every mapping of the case applied to the original result itself, in the order of
+            # the case and then in reverse order (each at least twice, with the others in between)
+            fan = []
+            for par, inv in list(c["maps"]) + list(reversed(c["maps"])):
+                step = guarded(lambda: _apply(r, par, inv, form))
+                fan.append({"ok": self._dump_sim(step["ok"], cplx, True)} if "ok" in step else step)
+            same = bool(np.array_equal(arg, arg0)) if isinstance(arg, np.ndarray) else arg == arg0
+            extra = {"fan": fan,
+                     "args_kept": bool([list(x) for x in ins] == c["ins"] and [list(x) for x in outs] == c["outs"] and same)}
+            return [{"ok": self._dump_sim(r, cplx, False)}, qres, chain, extra]
         # sampling
         pairs = [(State(list(s)), (v[0] if v[1] == 1 else v[0] / v[1])) for s, v in c["pairs"]]
-        made = guarded(lambda: SamplingResult(dict(pairs), _mk_obj(c["input"])))
+        src = dict(pairs)
+        made = guarded(lambda: SamplingResult(src, _mk_obj(c["input"])))
         if "err" in made:
             return [made, [], []]
         r = made["ok"]
+        form = c.get("form", 0)
         qres = [guarded(lambda q=q: float(r[_mk_item(q)])) for q in c["queries"]]
         chain = []
         cur = r
         for par, inv in c["maps"]:
-            cur = cur.apply_parity_mapping(invert=inv) if par else cur.apply_threshold_mapping(invert=inv)
+            cur = _apply(cur, par, inv, form)
             chain.append(self._dump_samp(cur, True))
-        return [{"ok": self._dump_samp(r, False)}, qres, chain]
+        fan = [self._dump_samp(_apply(r, par, inv, form), True) for par, inv in list(c["maps"]) + list(reversed(c["maps"]))]
+        kept = [[list(k_), float(v_)] for k_, v_ in src.items()] == [[list(k_), float(v_)] for k_, v_ in dict(pairs).items()]
+        return [{"ok": self._dump_samp(r, False)}, qres, chain, {"fan": fan, "args_kept": kept}]
 
     # ------------------------------------------------------------------- model
     def coq_header(self):
@@ -470,7 +506,8 @@ class C17:
         return self._oracle_sim(c, obs) if c["kind"] == "sim" else self._oracle_samp(c, obs)
 
     def _oracle_sim(self, c, obs):
-        made, _, chain = obs
+        made, chain = obs[0], obs[2]
+        extra = obs[3] if len(obs) > 3 else None
         wf = self._wellformed(c)
         if "err" in made:
             return f"well-formed construction rejected with {made['err']}" if wf else None
@@ -491,10 +528,14 @@ class C17:
         msg = self._check_sim_dump(d, ins, outs, base, "constructed result")
         if msg:
             return msg
+        if extra is not None and not extra["args_kept"]:
+            return "the arguments the result was built from (array / input list / output list) were modified"
         if not c["maps"]:
             return None
+        fan = extra["fan"] if extra is not None else []
+        fan_maps = list(c["maps"]) + list(reversed(c["maps"]))
         if c["rt"] == "probability_amplitude":
-            for m, st in zip(c["maps"], chain):
+            for m, st in list(zip(c["maps"], chain)) + list(zip(fan_maps, fan)):
                 if "err" not in st:
                     return f"mapping {m} accepted an amplitude-valued result"
             return None
@@ -502,6 +543,25 @@ class C17:
             # duplicates: start from what the container itself reports (pair indexing)
             base = {tuple(i): {tuple(o): d["pair"][a_][b]["ok"] for b, o in enumerate(outs)} for a_, i in enumerate(ins)}
         orig = base
+        # every mapping applied to the ORIGINAL object (several times, other mappings in between) is the image of the original data
+        for k, (m, st) in enumerate(zip(fan_maps, fan)):
+            what = f"call #{k} on the original result, {'parity' if m[0] else 'threshold'}{' inverted' if m[1] else ''}"
+            if "err" in st:
+                return f"{what}: refused for a probability result ({st['err']})"
+            f = _f_of(m)
+            exp = {}
+            for i, row in orig.items():
+                e = {}
+                for o, v in row.items():
+                    e[f(o)] = e.get(f(o), 0.0) + v
+                exp[i] = e
+            images = sorted({t for row in exp.values() for t in row})
+            if ins:
+                msg = self._check_sim_dump(st["ok"], ins, [list(t) for t in images], exp, what)
+                if msg:
+                    return msg
+            elif st["ok"]["inputs"] != []:
+                return f"{what}: inputs appeared from nowhere"
         comp = lambda s: s
         prev = None
         for k, (m, st) in enumerate(zip(c["maps"], chain)):
@@ -546,7 +606,8 @@ class C17:
         return None
 
     def _oracle_samp(self, c, obs):
-        made, _, chain = obs
+        made, chain = obs[0], obs[2]
+        extra = obs[3] if len(obs) > 3 else None
         if c["input"][0] != "s":
             return None if "err" in made else "SamplingResult accepted a non-State input"
         if "err" in made:
@@ -563,6 +624,19 @@ class C17:
             return "items differ from the counts the result was built from"
         if not _close(d["get"], [{"ok": v} for v in ref.values()]):
             return f"indexing does not return the counts: {d['get']}"
+        if extra is not None:
+            if not extra["args_kept"]:
+                return "the dictionary the SamplingResult was built from was modified"
+            for k, (m, r) in enumerate(zip(list(c["maps"]) + list(reversed(c["maps"])), extra["fan"])):
+                what = f"call #{k} on the original sampling result, {'parity' if m[0] else 'threshold'}{' inverted' if m[1] else ''}"
+                f = _f_of(m)
+                exp = {}
+                for o_, v in ref.items():
+                    exp[f(o_)] = exp.get(f(o_), 0.0) + v
+                keys = sorted(exp)
+                if r["outputs"] != [list(t) for t in keys] or not _close(r["items"], [[list(t), exp[t]] for t in keys]) \
+                        or not _close(r["get"], [{"ok": exp[t]} for t in keys]) or r["input"] != d["input"]:
+                    return f"{what}: {r['items']} != {[[list(t), exp[t]] for t in keys]}"
         base = ref
         total = sum(ref.values())
         prev = None
@@ -588,6 +662,9 @@ class C17:
             prev = r
             base = exp
         return None
+
+    def compare(self, c, a, b):
+        return core.approx_equal(list(a[:3]), list(b[:3]))
 
     # ----------------------------------------------------------------- support
     def nontrivial(self, c, obs):
